@@ -10,7 +10,8 @@ from .. import common as C
 ID = 'C13'
 MODEL = 'c13'
 RUNFUN = 'run'
-COQ_TARGETS = ['theories/Properties/C13.vo', 'theories/Extract/RunC13.vo']
+COQ_TARGETS = ['theories/Properties/C13.vo', 'theories/Extract/RunC13.vo', 'theories/Properties/ChainRadiometry.vo']
+EXTRA_PROPERTIES = ['ChainRadiometry']   # cross-package composition theorems of the radiometry chain (C13 o C15, C13 o C15 o C14)
 DESIGN_REF = 'DESIGN.md section 6, C13'
 TECHNIQUE = ('Coq proof on exact rationals (common grid, pointwise values against a separately stated piecewise-linear '
              'interpolant, commutativity, unit rescaling) about an executable model of Spectrum._ufunc/_interp_common/'
